@@ -1,6 +1,7 @@
 import Cppcms.C03.ConnWriteLemmas
 import Cppcms.C03.FramingLemmas
 import Cppcms.C03.BuffersLemmas
+import Cppcms.C03.ChainLemmas
 /-!
 # C03 — the client receives exactly the bytes the application wrote, once and in order
 
@@ -218,5 +219,142 @@ def idDeflater : Deflater := { σ := Unit, init := (), feed := fun _ i _ => ((),
 example : ((Gz.run (Gz.open idDeflater (-1), []) [.put (List.replicate 259 9)]).1.close).1.fed.map (fun x => (x.1.length, x.2))
     = [(256, Flush.noFlush), (3, Flush.finish)] := by
   decide +kernel
+
+/-! ## 4. framing of a whole response, as a client decodes it -/
+
+/-- **framing_roundtrip (HTTP).**  `st` is the connection state after `set_response_headers`: the
+application's status line `l0` and header lines `rest0` (no CR inside, none empty, no Transfer-Encoding
+among them, at most one Content-Length, in plain decimal).  For every sequence of `format_output` calls
+of a finalized response whose total length is the announced Content-Length (if one was announced), no
+`protocol_violation` is raised and the RFC 7230 client of `Spec.lean` reads **exactly one head** — the
+application's lines followed by the ones `format_output` adds — and a body equal to the concatenation of
+the inputs, whether the server chose Content-Length (announced, or computed for a single write),
+chunked (keep-alive and HTTP/1.1) or close-delimited framing. -/
+theorem framing_roundtrip_http (st : HttpSt) (l0 : Bytes) (rest0 : List Bytes) (h : HttpReady st l0 rest0)
+    (ws : List Bytes) (last : Bytes) (hlen : ∀ n, st.contentLength = some n → (ws.flatten ++ last).length = n) :
+    ∃ extras enc,
+      httpRun st (callsOf ws last) = (joinLines (l0 :: (rest0 ++ extras)) ++ [13, 10] ++ enc, false) ∧
+      Spec.deHttp (joinLines (l0 :: (rest0 ++ extras)) ++ [13, 10] ++ enc) =
+        some (joinLines (l0 :: (rest0 ++ extras)) ++ [13, 10], ws.flatten ++ last) :=
+  http_roundtrip_lemma st l0 rest0 h ws last hlen
+
+/-- a concrete ready state: HTTP/1.1 keep-alive client, `HTTP/1.1 200 Ok` + `Content-Type: text/html` -/
+def exampleHttpSt : HttpSt :=
+  { isHttp11 := true, clientKeepAlive := true,
+    responseHeaders := joinLines [[72,84,84,80,47,49,46,49,32,50,48,48,32,79,107],
+                                  [67,111,110,116,101,110,116,45,84,121,112,101,58,32,116,101,120,116,47,104,116,109,108]] }
+
+/-- non-vacuity of `HttpReady` -/
+example : HttpReady exampleHttpSt [72,84,84,80,47,49,46,49,32,50,48,48,32,79,107]
+    [[67,111,110,116,101,110,116,45,84,121,112,101,58,32,116,101,120,116,47,104,116,109,108]] where
+  fresh := rfl
+  hdr := rfl
+  status := by decide
+  ok := by
+    intro l hl
+    simp only [List.mem_cons, List.not_mem_nil, or_false] at hl
+    rcases hl with hl | hl <;> subst hl <;> exact ⟨by decide, by decide⟩
+  noTE := by decide
+  cl := Or.inl ⟨rfl, by decide⟩
+  written0 := rfl
+
+/-- and what that state sends for two writes: chunked, decoded back by the client -/
+example : (httpRun exampleHttpSt (callsOf [[1, 2, 3]] [4])).2 = false ∧
+    (Spec.deHttp (httpRun exampleHttpSt (callsOf [[1, 2, 3]] [4])).1).map (·.2) = some [1, 2, 3, 4] := by
+  decide +kernel
+
+/-- **framing_roundtrip (FastCGI).**  With a CGI header block `H` (exactly one block: its first blank line
+is its end) and any request id: the records sent for a finalized response parse, by the record grammar of
+the FastCGI specification, to a STDOUT stream that splits into exactly that header block and the
+concatenation of the inputs; see `fcgi_records_wellformed` for the shape of the records. -/
+theorem framing_roundtrip_fcgi (reqId : Nat) (hr : reqId < 65536) (H : Bytes) (hH : HeadOk H) (ws : List Bytes) (last : Bytes) :
+    Spec.deFcgi reqId (fcgiRun { reqId := reqId, responseHeaders := H, headersWritten := false } (callsOf ws last))
+      = some (H, ws.flatten ++ last) := by
+  have hrun := fcgiRun_fresh reqId H ws last
+  unfold callsOf
+  rw [hrun]
+  unfold Spec.deFcgi
+  cases ws with
+  | nil =>
+    simp only [deRecords_fcgiWire reqId hr, fcgiStdoutStream_wire reqId hr, List.flatten_cons, List.flatten_nil,
+      List.append_nil, List.nil_append]
+    exact splitHead_append H last hH
+  | cons w ws' =>
+    simp only [deRecords_fcgiWire reqId hr, fcgiStdoutStream_wire reqId hr]
+    have e : ((H ++ w) :: ws' ++ [last]).flatten = H ++ ((w :: ws').flatten ++ last) := by simp [List.append_assoc]
+    rw [e]
+    exact splitHead_append H _ hH
+
+/-- **framing_roundtrip (SCGI/CGI).**  The header block is sent once, in front of the first output. -/
+theorem framing_roundtrip_scgi (H : Bytes) (hH : HeadOk H) (ws : List Bytes) (last : Bytes) :
+    Spec.deScgi (scgiRun { headers := H, headersWritten := false } (ws ++ [last])) = some (H, ws.flatten ++ last) := by
+  unfold Spec.deScgi
+  cases ws with
+  | nil =>
+    rw [List.nil_append, scgiRun_fresh]
+    simp only [List.flatten_cons, List.flatten_nil, List.append_nil, List.nil_append]
+    exact splitHead_append H last hH
+  | cons w ws' =>
+    rw [List.cons_append, scgiRun_fresh]
+    have : (w :: (ws' ++ [last])).flatten = (w :: ws').flatten ++ last := by simp [List.append_assoc]
+    rw [this]
+    exact splitHead_append H _ hH
+
+/-- non-vacuity of `HeadOk`: `Content-Type: text/html CRLF CRLF` -/
+example : HeadOk [67,111,110,116,101,110,116,45,84,121,112,101,58,32,116,101,120,116,47,104,116,109,108,13,10,13,10] := by
+  unfold HeadOk; decide
+
+/-! ## 5. composition -/
+
+/-- **client_sees_app_bytes.**  Put together for any of the protocols (`F` is `httpFraming`,
+`fcgiFraming` or `scgiFraming`, which carry their round-trip theorems): for either device, any buffer
+size, every sequence of device operations followed by `close()`, and **every** disciplined trace of
+connection events that was handed the formatted outputs and ended drained without a hard error — whatever
+prefixes the socket accepted and however often it reported would-block — the bytes on the wire decode, with
+the independent de-framer, to exactly one head and a body equal to the bytes written to the device. -/
+theorem client_sees_app_bytes (F : Framing) (isAsync full : Bool) (n : Nat) (ops : List DevOp)
+    (hlen : F.lengthOk ((ops.map DevOp.data).flatten).length)
+    (evs : List Ev) (hd : disciplined {} evs = true) (hb : (runEvs {} evs).broken = false) (hdr : (runEvs {} evs).backlog = [])
+    (hh : (evs.map Ev.data).flatten =
+      (F.run ((Dev.run (({ isAsync := isAsync, fullBuffering := full } : Dev).open n, []) ops).1.close logIf
+               (Dev.run (({ isAsync := isAsync, fullBuffering := full } : Dev).open n, []) ops).2).2).1) :
+    ∃ head, F.deframe (runEvs {} evs).wire = some (head, (ops.map DevOp.data).flatten) :=
+  chain_device F isAsync full n ops hlen evs hd hb hdr hh
+
+/-- **client_sees_app_bytes, compressed and cached page.**  The full chain application → `gzip_buf` →
+`copy_buf` → device → framing → connection, for any deflater with an `inflate` that inverts it on
+finished streams: the client's body decompresses to exactly the application's bytes, and the page copied
+for the cache is byte-identical to the body that was sent. -/
+theorem client_sees_app_bytes_gzip_cached (F : Framing) (D : Deflater) (gzBuf : Int) (isAsync full : Bool) (n : Nat)
+    (appOps : List BufOp) (inflate : Bytes → Option Bytes)
+    (hinf : ∀ cs l, (∀ x ∈ cs, x.2 ≠ Flush.finish) →
+        inflate (feedAll D D.init (cs ++ [(l, Flush.finish)])).2 = some ((cs ++ [(l, Flush.finish)]).map (·.1)).flatten) :
+    let g := Gz.run (Gz.open D gzBuf, []) appOps
+    let acts1 := g.2 ++ g.1.close.2
+    let k := Copy.run ({}, []) (acts1.map Act.toBufOp)
+    let acts2 := k.2 ++ k.1.close.2
+    let d := Dev.run (({ isAsync := isAsync, fullBuffering := full } : Dev).open n, []) (acts2.map Act.toDevOp)
+    F.lengthOk (actBytes acts1).length →
+    ∀ evs, disciplined {} evs = true → (runEvs {} evs).broken = false → (runEvs {} evs).backlog = [] →
+      (evs.map Ev.data).flatten = (F.run (d.1.close logIf d.2).2).1 →
+      ∃ head body, F.deframe (runEvs {} evs).wire = some (head, body) ∧
+        inflate body = some (appOps.map BufOp.data).flatten ∧ k.1.close.1.getstr.1 = body :=
+  chain_gzip_cached F D gzBuf isAsync full n appOps inflate hinf
+
+/-- non-vacuity of the `inflate` hypothesis: the storing deflater is inverted by the identity -/
+example : ∀ cs l, (∀ x ∈ cs, x.2 ≠ Flush.finish) →
+    (fun x => some x) (feedAll idDeflater idDeflater.init (cs ++ [(l, Flush.finish)])).2 = some ((cs ++ [(l, Flush.finish)]).map (·.1)).flatten := by
+  intro cs l _
+  have key : ∀ (xs : List (Bytes × Flush)) (s : idDeflater.σ), (feedAll idDeflater s xs).2 = (xs.map (·.1)).flatten := by
+    intro xs
+    induction xs with
+    | nil => intro s; rfl
+    | cons x xs ih =>
+      intro s
+      obtain ⟨i, f⟩ := x
+      show i ++ (feedAll idDeflater _ xs).2 = i ++ (xs.map (·.1)).flatten
+      rw [ih]
+  show some _ = some _
+  rw [key]
 
 end Cppcms.C03.Props
